@@ -26,7 +26,7 @@ import (
 )
 
 var witnessAnswers = []string{"valid", "missing", "wrong_log_key", "no_witness_sig", "invalid_witness_sig", "corrupted", "other_logs_checkpoint", "valid_two_keys", "wrong_origin", "witness_error", "witness_timeout"}
-var distAnswers = []string{"200", "400", "404", "500", "reset", "302_to_200", "307_to_404", "307_to_200", "timeout"}
+var distAnswers = []string{"200", "400", "404", "500", "reset", "302_to_200", "307_to_404", "307_to_200", "timeout", "200_big_body", "200_body_after_headers"}
 
 // wait sleeps d unless ctx ends first.
 func wait(ctx context.Context, d time.Duration) error {
@@ -86,7 +86,15 @@ func (d *stubDist) ServeHTTP(w http.ResponseWriter, q *http.Request) {
 	for k, v := range resp.Header {
 		w.Header()[k] = v
 	}
+	slow := resp.Header.Get("X-Stub-Body-After-Headers") != ""
 	w.WriteHeader(resp.StatusCode)
+	if slow {
+		// the headers go out first; the (short) body follows in a later packet
+		if f, ok := w.(http.Flusher); ok {
+			f.Flush()
+		}
+		time.Sleep(30 * time.Millisecond)
+	}
 	_, _ = io.Copy(w, resp.Body)
 }
 
@@ -137,6 +145,13 @@ func (d *stubDist) RoundTrip(q *http.Request) (*http.Response, error) {
 	switch d.answer[id] {
 	case "200":
 		return mk(200, nil)
+	case "200_big_body":
+		// a verbose distributor (or a proxy in front of it): 96 KiB of body with the 200
+		r, err := mk(200, nil)
+		r.Body = io.NopCloser(strings.NewReader(strings.Repeat("accepted; thank you for your checkpoint\n", 2400)))
+		return r, err
+	case "200_body_after_headers":
+		return mk(200, map[string]string{"X-Stub-Body-After-Headers": "1"})
 	case "400":
 		return mk(400, nil)
 	case "404":
@@ -163,7 +178,7 @@ func main() {
 	wit.EnsureMetrics(nil)
 	run := ev.Start("C15", "exploration")
 	defer run.Finish()
-	run.Rule("unit = one DistributeOnce cycle of the real distributor over 1-6 logs against a stub witness (per log one of: valid, missing, wrong log key, no witness signature, invalid witness signature, corrupted, another log's checkpoint, valid with two witness keys, wrong origin, witness error, a witness error that wraps a context error while the cycle's context is alive) and a stub distributor (200, 400, 404, 500, connection reset, a transport-level deadline error, 302->GET 200, 307->404, 307->200); all witness x distributor answer pairs are enumerated for single logs, sets are PRNG-drawn. Every request reaching the stub is judged (method, path, body identical to the witness's answer, body verifies by kit/refnote); per-log failure accounting is compared with DistributeOnce's result; one to three rounds run on the same Distributor instance, the witness's checkpoints changing (size and byte length) between rounds, and the last one is judged. evaluations = (log, cycle) pairs; nontrivial = distinct (witness answer, distributor answer, set size)")
+	run.Rule("unit = one DistributeOnce cycle of the real distributor over 1-6 logs against a stub witness (per log one of: valid, missing, wrong log key, no witness signature, invalid witness signature, corrupted, another log's checkpoint, valid with two witness keys, wrong origin, witness error, a witness error that wraps a context error while the cycle's context is alive) and a stub distributor (200, 400, 404, 500, connection reset, a transport-level deadline error, 200 with a 96 KiB body, 200 whose body follows the headers later, 302->GET 200, 307->404, 307->200); all witness x distributor answer pairs are enumerated for single logs, sets are PRNG-drawn. Every request reaching the stub is judged (method, path, body identical to the witness's answer, body verifies by kit/refnote); per-log failure accounting is compared with DistributeOnce's result; one to three rounds run on the same Distributor instance, the witness's checkpoints changing (size and byte length) between rounds, and the last one is judged. evaluations = (log, cycle) pairs; nontrivial = distinct (witness answer, distributor answer, set size)")
 	run.Assume("307 -> 200 is executed but its success/failure is not judged (the statement leaves it open)")
 	run.Floor("pairs_single", int64(len(witnessAnswers)*len(distAnswers)))
 	run.Floor("pushed_valid", 200)
@@ -312,7 +327,7 @@ func cycle(run *ev.Run, unit int64, r *rand.Rand, ws, ds []string) {
 		sd.mu.Lock()
 		defer sd.mu.Unlock()
 		for i := range logs {
-			if ds[i] != "200" {
+			if !strings.HasPrefix(ds[i], "200") {
 				continue
 			}
 			id := clogs[i].ID
@@ -417,7 +432,7 @@ func cycle(run *ev.Run, unit int64, r *rand.Rand, ws, ds []string) {
 			run.Violate("pushed_body_does_not_verify", "the pushed body does not verify under the log's key/origin and the witness key", unit, detail)
 		}
 		switch ds[i] {
-		case "200":
+		case "200", "200_big_body", "200_body_after_headers":
 		case "307_to_200":
 			judgeErr = false
 		default:
